@@ -106,7 +106,7 @@ func srPermAuth(rng *rand.Rand, auth []gmsl.PDU) []gmsl.PDU {
 // the directed v1 family (interdependent conflicted member keys): 16 rearrangements each, every
 // one resolved repeatedly, all against the model on the base input
 func srDirectedV1Perms(c *Ctx) {
-	for j := 0; j < c.Scale(8, 60); j++ {
+	for j := 0; j < c.Scale(12, 60); j++ {
 		in := srDirectedV1(c.Rng)
 		if j%2 == 1 {
 			in = srDirectedV1Admin(c.Rng)
@@ -215,6 +215,18 @@ func propC11(c *Ctx) {
 			pauth := srPermAuth(rng, in.auth)
 			if p == 0 { // the base input itself
 				psets, pauth = in.sets, in.auth
+			}
+			if p%4 == 3 && len(psets[0]) > 0 {
+				// F80: a state set is a map - naming an event twice in the lists changes nothing
+				e := psets[0][rng.Intn(len(psets[0]))]
+				for j := range psets {
+					for _, x := range psets[j] {
+						if x.EventID() == e.EventID() {
+							psets[j] = append(append([]gmsl.PDU{}, psets[j]...), e)
+							break
+						}
+					}
+				}
 			}
 			args := [][]byte{[]byte(ver), in.universe, srSetsStr(psets), srCSV(pauth), rej, table, in.evjson}
 			table = srFillTable(cs, "C10.resolve_new", args, 5)
